@@ -72,23 +72,23 @@ def model_code(m, path, rules_text=None):
     A('pub const PLAIN_NEW: &[bool] = &[%s];' % ', '.join('true' if t in plain_new else 'false' for t in tlist))
     A('pub const RELS: &[(&str, &[usize], bool, bool)] = &[%s];' % ', '.join('(%s, &[%s], %s, %s)' % (json.dumps(r), ', '.join(str(tlist.index(x)) for x in m.rel_types[r]), 'true' if r in funcs else 'false', 'true' if r in defs else 'false') for r in m.rels))
     A('pub const HAS_NONSURJECTIVE_RULES: bool = %s;' % ('true' if re.search(r'^// - \w+Def\(', getattr(m, 'rules_text', None) or m.src.text, re.M) else 'false'))
-    A('pub type M = %s;' % name)
-    A('pub fn new_model() -> M { M::new() }')
-    A('pub fn count(m: &M, ty: usize) -> usize { match ty { %s _ => unreachable!() } }' % ' '.join('%d => m.%s_equalities.len(),' % (i, t) for i, t in enumerate(tlist)))
-    A('pub fn new_el(m: &mut M, ty: usize) -> u32 { match ty { %s _ => unreachable!() } }' % ' '.join('%d => m.new_%s().0,' % (i, t) if t in plain_new else '%d => unreachable!(),' % i for i, t in enumerate(tlist)))
-    A('pub fn root(m: &M, ty: usize, x: u32) -> u32 { match ty { %s _ => unreachable!() } }' % ' '.join('%d => m.root_%s(%s(x)).0,' % (i, t, m.types[t]) for i, t in enumerate(tlist)))
-    A('pub fn are_equal(m: &M, ty: usize, x: u32, y: u32) -> bool { match ty { %s _ => unreachable!() } }' % ' '.join('%d => m.are_equal_%s(%s(x), %s(y)),' % (i, t, m.types[t], m.types[t]) for i, t in enumerate(tlist)))
-    A('pub fn equate(m: &mut M, ty: usize, x: u32, y: u32) { match ty { %s _ => unreachable!() } }' % ' '.join('%d => m.equate_%s(%s(x), %s(y)),' % (i, t, m.types[t], m.types[t]) for i, t in enumerate(tlist)))
-    A('pub fn iter_ty(m: &M, ty: usize) -> Vec<u32> { match ty { %s _ => unreachable!() } }' % ' '.join('%d => m.iter_%s().map(|x| x.0).collect(),' % (i, t) for i, t in enumerate(tlist)))
+    A('pub type VM__ = %s;' % name)
+    A('pub fn new_model() -> VM__ { VM__::new() }')
+    A('pub fn count(m: &VM__, ty: usize) -> usize { match ty { %s _ => unreachable!() } }' % ' '.join('%d => m.%s_equalities.len(),' % (i, t) for i, t in enumerate(tlist)))
+    A('pub fn new_el(m: &mut VM__, ty: usize) -> u32 { match ty { %s _ => unreachable!() } }' % ' '.join('%d => m.new_%s().0,' % (i, t) if t in plain_new else '%d => unreachable!(),' % i for i, t in enumerate(tlist)))
+    A('pub fn root(m: &VM__, ty: usize, x: u32) -> u32 { match ty { %s _ => unreachable!() } }' % ' '.join('%d => m.root_%s(%s(x)).0,' % (i, t, m.types[t]) for i, t in enumerate(tlist)))
+    A('pub fn are_equal(m: &VM__, ty: usize, x: u32, y: u32) -> bool { match ty { %s _ => unreachable!() } }' % ' '.join('%d => m.are_equal_%s(%s(x), %s(y)),' % (i, t, m.types[t], m.types[t]) for i, t in enumerate(tlist)))
+    A('pub fn equate(m: &mut VM__, ty: usize, x: u32, y: u32) { match ty { %s _ => unreachable!() } }' % ' '.join('%d => m.equate_%s(%s(x), %s(y)),' % (i, t, m.types[t], m.types[t]) for i, t in enumerate(tlist)))
+    A('pub fn iter_ty(m: &VM__, ty: usize) -> Vec<u32> { match ty { %s _ => unreachable!() } }' % ' '.join('%d => m.iter_%s().map(|x| x.0).collect(),' % (i, t) for i, t in enumerate(tlist)))
 
     def args(r, k):
         return ', '.join('%s(a[%d])' % (m.rels[r][i], i) for i in range(k))
     rl = list(m.rels)
-    A('pub fn insert(m: &mut M, rel: usize, a: &[u32]) { match rel { %s _ => unreachable!() } }' % ' '.join('%d => m.insert_%s(%s),' % (i, r, args(r, len(m.rels[r]))) for i, r in enumerate(rl)))
-    A('pub fn holds(m: &M, rel: usize, a: &[u32]) -> bool { match rel { %s _ => unreachable!() } }' % ' '.join(
+    A('pub fn insert(m: &mut VM__, rel: usize, a: &[u32]) { match rel { %s _ => unreachable!() } }' % ' '.join('%d => m.insert_%s(%s),' % (i, r, args(r, len(m.rels[r]))) for i, r in enumerate(rl)))
+    A('pub fn holds(m: &VM__, rel: usize, a: &[u32]) -> bool { match rel { %s _ => unreachable!() } }' % ' '.join(
         ('%d => m.%s(%s) == Some(%s(a[%d])),' % (i, r, args(r, len(m.rels[r]) - 1), m.rels[r][-1], len(m.rels[r]) - 1)) if r in funcs else ('%d => m.%s(%s),' % (i, r, args(r, len(m.rels[r])))) for i, r in enumerate(rl)))
-    A('pub fn eval(m: &M, rel: usize, a: &[u32]) -> Option<u32> { match rel { %s _ => None } }' % ' '.join('%d => m.%s(%s).map(|x| x.0),' % (i, r, args(r, len(m.rels[r]) - 1)) for i, r in enumerate(rl) if r in funcs))
-    A('pub fn define(m: &mut M, rel: usize, a: &[u32]) -> u32 { match rel { %s _ => unreachable!() } }' % ' '.join('%d => m.define_%s(%s).0,' % (i, r, args(r, len(m.rels[r]) - 1)) for i, r in enumerate(rl) if r in defs))
+    A('pub fn eval(m: &VM__, rel: usize, a: &[u32]) -> Option<u32> { match rel { %s _ => None } }' % ' '.join('%d => m.%s(%s).map(|x| x.0),' % (i, r, args(r, len(m.rels[r]) - 1)) for i, r in enumerate(rl) if r in funcs))
+    A('pub fn define(m: &mut VM__, rel: usize, a: &[u32]) -> u32 { match rel { %s _ => unreachable!() } }' % ' '.join('%d => m.define_%s(%s).0,' % (i, r, args(r, len(m.rels[r]) - 1)) for i, r in enumerate(rl) if r in defs))
 
     def tup(r):
         k = len(m.rels[r])
@@ -105,7 +105,7 @@ def model_code(m, path, rules_text=None):
         if k == 1:
             return 'm.iter_%s().map(|t| vec![t.0]).collect()' % r
         return 'm.iter_%s().map(|t| %s).collect()' % (r, rust_vec(['t.%d.0' % i for i in range(k)]))
-    A('pub fn iter_rel(m: &M, rel: usize) -> Vec<Vec<u32>> { match rel { %s _ => unreachable!() } }' % ' '.join('%d => %s,' % (i, iter_expr(r)) for i, r in enumerate(rl)))
+    A('pub fn iter_rel(m: &VM__, rel: usize) -> Vec<Vec<u32>> { match rel { %s _ => unreachable!() } }' % ' '.join('%d => %s,' % (i, iter_expr(r)) for i, r in enumerate(rl)))
     # enum case queries: <t>_cases(el) must list exactly the constructor applications that evaluate to el
     enums = {}
     for t, T in m.types.items():
@@ -124,7 +124,7 @@ def model_code(m, path, rules_text=None):
             T = m.types[t]
             vs = ' '.join('%sCase::%s(%s) => (%d, vec![%s]),' % (T, c, ', '.join('a%d' % k for k in range(n)), ri, ', '.join('a%d.0' % k for k in range(n))) for c, ri, n in enums[t])
             arms.append('%d => Some(m.%s_cases(%s(x)).map(|c| match c { %s }).collect()),' % (i, t, T, vs))
-    A('pub fn cases(m: &M, ty: usize, x: u32) -> Option<Vec<(usize, Vec<u32>)>> { match ty { %s _ => None } }' % ' '.join(arms))
+    A('pub fn cases(m: &VM__, ty: usize, x: u32) -> Option<Vec<(usize, Vec<u32>)>> { match ty { %s _ => None } }' % ' '.join(arms))
     A('pub const CTORS: &[(usize, usize)] = &[%s];' % ', '.join('(%d, %d)' % (tlist.index(t), ri) for t in enums for _, ri, _ in enums[t]))
     # new_<enum>(<Enum>Case::<Ctor>(args)) -- the public way to create an element of an enum type (C15)
     narms = []
@@ -133,12 +133,12 @@ def model_code(m, path, rules_text=None):
         for c, ri, n in enums[t]:
             r = rl[ri]
             narms.append('%d => m.new_%s(%sCase::%s(%s)).0,' % (ri, t, T, c, ', '.join('%s(a[%d])' % (m.rels[r][i], i) for i in range(n))))
-    A('pub fn new_enum(m: &mut M, rel: usize, a: &[u32]) -> u32 { match rel { %s _ => unreachable!() } }' % ' '.join(narms))
+    A('pub fn new_enum(m: &mut VM__, rel: usize, a: &[u32]) -> u32 { match rel { %s _ => unreachable!() } }' % ' '.join(narms))
     # ---- the flat rules of the program, parsed from the comments above the emitted rule functions (C01: closedness)
     A(rules_code(m, rl, tlist, funcs))
-    A('pub fn close(m: &mut M) { m.close() }')
-    A('pub fn close_until(m: &mut M, cond: &dyn Fn(&M) -> bool) -> bool { m.close_until(|x| cond(x)) }')
-    A('pub fn check(m: &M) -> Result<(), String> { m.verif_check() }')
+    A('pub fn close(m: &mut VM__) { m.close() }')
+    A('pub fn close_until(m: &mut VM__, cond: &dyn Fn(&VM__) -> bool) -> bool { m.close_until(|x| cond(x)) }')
+    A('pub fn check(m: &VM__) -> Result<(), String> { m.verif_check() }')
     A('}')
     return '\n'.join(L) + '\n'
 
@@ -209,13 +209,29 @@ def rules_code(m, rl, tlist, funcs):
             skipped.append(name)
             continue
         out.append('Rule { name: %s, nvars: %d, premise: &[%s], concl: &[%s] }' % (json.dumps(name), nbound, ', '.join(prem), ', '.join(conc)))
-    return ('pub use super::{RAtom, RConc, Rule};\npub const RULES: &[Rule] = &[%s];\npub const RULES_SKIPPED: &[&str] = &[%s];'
+    out = [o.replace('Rule {', 'super::Rule {').replace('RAtom {', 'super::RAtom {').replace('RConc {', 'super::RConc {') for o in out]
+    return ('pub const RULES: &[super::Rule] = &[%s];\npub const RULES_SKIPPED: &[&str] = &[%s];'
             % (',\n    '.join(out), ', '.join(json.dumps(x) for x in skipped)))
 
 
 def iter_item_shapes_ok(m):
     """iter_<rel> of a unary relation yields a bare element, of arity >= 2 a tuple; arity 0 yields ()"""
     return True
+
+
+EXTRA_THOROUGH = ['branches', 'equational_monoid', 'int', 'logic', 'matches', 'matches_rel', 'nat', 'partial_magma', 'poset', 'reduction_from_nullary', 'trans_refl', 'trivial_idempotent']
+
+
+def thorough_files():
+    """the probes plus the repository's own test theories without model declarations and without non-surjective rules (they terminate; their
+    emitted modules are understood by kit/gen.py); a theory that has disappeared or changed shape is skipped"""
+    from units import gen as U
+    out = list(U.probe_files())
+    for n in EXTRA_THOROUGH:
+        f = os.path.join(driver.REPO, 'eqlog-test-eval', 'src', n + '.eql')
+        if os.path.exists(f) and '!' not in re.sub(r'//[^\n]*', '', open(f).read()) and not re.search(r'^\s*model\b', open(f).read(), re.M):
+            out.append(f)
+    return out
 
 
 def build(files=None, component=False):
